@@ -13,6 +13,7 @@ Section EnvRun.
   Variable W : Type.
   Variable wsrc : nat -> Z.
   Variable exec : A -> W -> Z -> W * list (cmd A).
+  Variable wfail : W -> bool.
 
   Notation event := (event A).
   Notation env := (env A).
@@ -112,7 +113,7 @@ Section EnvRun.
       (forall e, In e (queue en) -> e_time eT < e_time e).
 
     Lemma step_runA w en s' :
-      RunA en -> step wsrc exec (w, en) = Some (Ok s') -> RunA (snd s') \/ RunB (snd s').
+      RunA en -> step wsrc exec wfail (w, en) = Some (Ok s') -> RunA (snd s') \/ RunB (snd s').
     Proof.
       intros R H. pose proof R as [I Hin T O]. unfold step in H.
       destruct (queue en) as [|e q] eqn:Q; [discriminate|].
@@ -138,21 +139,21 @@ Section EnvRun.
         + injection H as <-. left. exact RA1.
         + destruct (e_act e) as [a|] eqn:Ea.
           * pose proof (exec_ok a w (e_time e)) as K. destruct (exec a w (e_time e)) as [w' cs]. cbn in K.
-            destruct (apply_cmds wsrc _ cs) eqn:E; [|discriminate]. injection H as <-. left. cbn.
+            destruct (apply_cmds wsrc _ cs) eqn:E; [|discriminate]. destruct (wfail w'); [discriminate|]. injection H as <-. left. cbn.
             eapply apply_cmds_runA; eauto.
           * exfalso. destruct (O e) as [->|[_ P2]]; [left; reflexivity| |congruence].
             eapply (inv_queue_head_unique A en eT q eT I Q Hin). reflexivity.
     Qed.
 
     Lemma loop_runA fuel : forall w en s',
-      RunA en -> loop wsrc exec fuel (w, en) = Some (Ok s') -> RunB (snd s').
+      RunA en -> loop wsrc exec wfail fuel (w, en) = Some (Ok s') -> RunB (snd s').
     Proof.
       induction fuel as [|f IH]; intros w en s' R H; cbn [loop snd] in H.
       - destruct (queue en) eqn:Q; [destruct R as [_ Hin _ _]; rewrite Q in Hin; destruct Hin|].
         destruct R as [_ _ T _]. rewrite T in H. discriminate.
       - destruct (queue en) eqn:Q; [destruct R as [_ Hin _ _]; rewrite Q in Hin; destruct Hin|].
         pose proof R as [_ _ T _]. rewrite T in H.
-        destruct (step wsrc exec (w, en)) as [[s1|s1]|] eqn:E; try discriminate.
+        destruct (step wsrc exec wfail (w, en)) as [[s1|s1]|] eqn:E; try discriminate.
         + destruct (step_runA w en s1 R E) as [RA|RB].
           * destruct s1 as [w1 en1]. cbn in RA. eapply IH; [exact RA|exact H].
           * destruct s1 as [w1 en1]. destruct RB as [I1 [T1 [N1 L1]]].
@@ -160,7 +161,7 @@ Section EnvRun.
             assert (HH : Some (Ok (w1, en1)) = Some (Ok s')).
             { destruct f; cbn [loop snd] in H; destruct (queue en1); try exact H; rewrite T1 in H; exact H. }
             injection HH as <-. split; [exact I1|]. split; [exact T1|]. split; [exact N1|exact L1].
-        + apply (step_none A W wsrc exec) in E. cbn in E. congruence.
+        + apply (step_none A W wsrc exec wfail) in E. cbn in E. congruence.
     Qed.
   End WithT.
 
@@ -168,7 +169,7 @@ Section EnvRun.
   Theorem run_post fuel d w (en : env) s' :
     Inv en -> 0 <= d ->
     (forall e, In e (queue en ++ paused en) -> ev_ok e) ->
-    run wsrc exec fuel d (w, en) = Some (Ok s') ->
+    run wsrc exec wfail fuel d (w, en) = Some (Ok s') ->
     now (snd s') = now en + d /\
     terminated (snd s') = true /\
     (forall e, In e (queue (snd s')) -> now en + d < e_time e) /\
@@ -181,7 +182,7 @@ Section EnvRun.
     destruct (now en + d <? now en) eqn:Hlt; [discriminate|]. injection E as <-.
     set (eT := mkEvent (next_eid en) (now en + d) P_TERMINATE (wsrc (next_eid en)) (-1) (@None A) None false) in *.
     assert (I0 : Inv (set_terminated en false)) by (apply set_terminated_inv, I).
-    match type of H with loop _ _ _ (_, ?e0) = _ => set (en0 := e0) in * end.
+    match type of H with loop _ _ _ _ (_, ?e0) = _ => set (en0 := e0) in * end.
     assert (I1 : Inv en0).
     { eapply (schedule_inv A wsrc (set_terminated en false) (now en + d) P_TERMINATE (-1) None); [exact I0|].
       unfold schedule. cbn. rewrite Hlt. reflexivity. }
